@@ -314,6 +314,18 @@ pub fn arb_value(cfg: GenCfg) -> BoxedStrategy<Value> {
                 vec((inner.clone(), inner.clone()), 0..5).prop_map(move |e| Value::Map(dedupe_map(e, cfg.eq_num_keys))).boxed(),
             ),
         ];
+        // two keys that are neighbours of each other (an identifier with one field changed, a reference with one word more,
+        // a fun with another arity, a number next to it ...): distinct terms must stay distinct map entries
+        alts.push((
+            2,
+            (inner.clone(), vec(any::<u8>(), 0..6), inner.clone(), inner.clone())
+                .prop_map(move |(k, tw, a, b)| {
+                    // (the neighbour is clamped back into the term space: an atom of 65535 bytes has no longer neighbour)
+                    let k2 = sanitize(&tweak(&k, &mut refmodel::etf::VecPicker::new(&tw)), 0);
+                    Value::Map(dedupe_map(vec![(k, a), (k2, b)], cfg.eq_num_keys))
+                })
+                .boxed(),
+        ));
         if cfg.eq_num_keys {
             alts.push((
                 2,
@@ -619,12 +631,19 @@ pub fn tweak(v: &Value, pk: &mut dyn refmodel::etf::Picker) -> Value {
             1 => Value::Port { node: node.clone(), id: *id, creation: creation.wrapping_add(1) },
             _ => Value::Port { node: format!("{node}x"), id: *id, creation: *creation },
         },
-        Value::Ref { node, creation, ids } => match pk.pick(3, "tw-ref") {
+        Value::Ref { node, creation, ids } => match pk.pick(5, "tw-ref") {
             0 => {
                 let mut i2 = ids.clone();
                 i2.push(0);
                 Value::Ref { node: node.clone(), creation: *creation, ids: i2 }
             }
+            // one word more in front (the old words become a suffix), one word fewer
+            3 if ids.len() < 5 => {
+                let mut i2 = ids.clone();
+                i2.insert(0, 1);
+                Value::Ref { node: node.clone(), creation: *creation, ids: i2 }
+            }
+            4 if !ids.is_empty() => Value::Ref { node: node.clone(), creation: *creation, ids: ids[1..].to_vec() },
             1 => Value::Ref { node: node.clone(), creation: creation.wrapping_add(1), ids: ids.clone() },
             _ => Value::Ref { node: format!("{node}x"), creation: *creation, ids: ids.clone() },
         },
